@@ -113,7 +113,21 @@ def cases(shard, nshards, seed, tier):
             yield {"family": "cli-motif_extractor", "module": "motif_extractor", "n": off, "pairs": sorted(allp)}
 
 
-def _run(case, hashseed, workdir, inputs):
+MARKER = "VMON-SOLVER-FAILURE-NOBODY-INJECTED"
+
+
+def _run(case, hashseed, workdir, inputs, _again=True):
+    outs, err = _run_once(case, hashseed, workdir, inputs)
+    if MARKER in err and _again:
+        # the MILP solver's child process failed in that interpreter although nothing injected a fault (killed or
+        # starved on a loaded machine): what the tool printed is the documented fall-back, not its normal answer.
+        # That run is repeated once; a failure the code causes shows again
+        _cur["rec"].count("note:run-repeated-after-a-solver-failure-nobody-injected")
+        outs, err = _run_once(case, hashseed, workdir, inputs)
+    return outs, err
+
+
+def _run_once(case, hashseed, workdir, inputs):
     env = dict(os.environ)
     env["PYTHONHASHSEED"] = str(hashseed)
     env["LOGLEVEL"] = "CRITICAL"
@@ -134,7 +148,7 @@ def _run(case, hashseed, workdir, inputs):
             except Exception as e:
                 outs[os.path.relpath(path, cwd)] = f"<unreadable {e}>"
     shutil.rmtree(cwd, ignore_errors=True)
-    return outs, p.stderr[-800:]
+    return outs, p.stderr[-800:] + (MARKER if MARKER in p.stderr else "")
 
 
 def _batch_case(case, rec):
@@ -203,7 +217,11 @@ def _batch_case(case, rec):
         env = dict(os.environ, PYTHONHASHSEED="0", LOGLEVEL="CRITICAL", VERIF_REPO=core.REPO)
 
         def run(argv):
-            p = subprocess.run([sys.executable, "-m", "vmon.launch", single] + argv, cwd=workdir, env=env, capture_output=True, text=True, timeout=900)
+            for attempt in (0, 1):
+                p = subprocess.run([sys.executable, "-m", "vmon.launch", single] + argv, cwd=workdir, env=env, capture_output=True, text=True, timeout=900)
+                if MARKER not in p.stderr:
+                    break
+                rec.count("note:run-repeated-after-a-solver-failure-nobody-injected")
             return p.stdout, p.returncode
 
         out_all, rc = run(paths)
